@@ -73,8 +73,8 @@ CHECKS.update({
 })
 CHECKS.update({
     'C17': dict(engine='calc', technique=T + '; explicit rounding bounds for the scipy Legendre coefficients (hand lemma abs_polyEval_le)', design='§7 C17',
-                text='All 25 hard-coded harmonics traced from source: eigenfunctions of the angular Laplacian with eigenvalue -l(l+1), azimuthal order m (d²/dφ² = -m²) and sine/cosine type at φ=0 — pinning each column to its documented (l,m) up to scale; RealSphericalHarmonics column order; RealFourierSeries terms; HarmonicsLaplacian = operators.spherical_laplacian of the expansion and FourierLaplacian = polar Laplacian for arbitrary coefficient symbols R_k(r) (max_degree 0..2 quick, 0..4 / Fourier 12 thorough); Legendre polynomials within 1e-10 of the exact P_l on [-1,1]; zonal columns = c_l P_l(cos θ) with c_l² within 1e-15 of (2l+1)/(4π); zonal Laplacian = spherical Laplacian minus an explicit residual bounded by 1e-8.',
-                note='Partial: orthogonality and the common normalisation (Gram matrix = π·I) are not proved; they are evaluated by band-limit-exact quadrature only in the failing-input search.'),
+                text='All 25 hard-coded harmonics traced from source: eigenfunctions of the angular Laplacian with eigenvalue -l(l+1), azimuthal order m (d²/dφ² = -m²) and sine/cosine type at φ=0, mutual orthogonality on the sphere (300 pairs, = 0 exactly) and the common normalisation (|∫∫Y²sinθ − π| ≤ 1e-7, 25 theorems) — pinning each column to its documented (l,m) and scale; RealSphericalHarmonics column order; RealFourierSeries terms; HarmonicsLaplacian = operators.spherical_laplacian of the expansion and FourierLaplacian = polar Laplacian for arbitrary coefficient symbols R_k(r) (max_degree 0..2 quick, 0..4 / Fourier 12 thorough); Legendre polynomials within 1e-10 of the exact P_l on [-1,1]; zonal columns = c_l P_l(cos θ) with c_l² within 1e-15 of (2l+1)/(4π); zonal Laplacian = spherical Laplacian minus an explicit residual bounded by 1e-8.',
+                note='Orthogonality: all 300 pairs of the 25 traced harmonics have sphere integral exactly 0, and every squared norm is within 1e-7 of π (the source constants are 9-10 digit decimals, so π holds only up to that rounding) — proved from kernel-checked separations Y = A(θ)·B(φ) and antiderivative certificates (D_sound + fundamental theorem of calculus, Mathlib interval integrals). Legendre/zonal clauses hold up to the explicit rounding bounds of the scipy coefficients.'),
 })
 NOT_YET = {}
 
